@@ -8,6 +8,7 @@ import (
 	"io"
 	"net/http"
 	"net/http/httptest"
+	"strconv"
 	"strings"
 
 	"github.com/getkin/kin-openapi/openapi3"
@@ -41,6 +42,7 @@ type c08Case struct {
 	Pad           string   `json:"pad"`
 	Variant       string   `json:"variant"`
 	Pv            string   `json:"pv"`
+	Mark          int      `json:"mark"`
 }
 
 // one declared response header of part "hdr": the schema is an abstract schema of spec/SchemaSem.tla
@@ -111,7 +113,19 @@ func c08Build(tcp *c08Case) (*openapi3filter.ResponseValidationInput, []byte, er
 	jsonContent := func(schema any) map[string]any {
 		return map[string]any{"application/json": map[string]any{"schema": schema}}
 	}
-	if tc.Part == "pick" {
+	if tc.Part == "media" {
+		// the definition's content map has the keys as given (possibly with parameters); entry i wants the marker m<i>
+		content := map[string]any{}
+		for i, k := range tc.Keys {
+			content[k] = map[string]any{"schema": map[string]any{"type": "object", "required": []any{"m" + strconv.Itoa(i+1)}}}
+		}
+		responses["200"] = map[string]any{"description": "ok", "content": content}
+		if tc.CtText != "" {
+			hdr.Set("Content-Type", tc.CtText)
+		}
+		body = []byte(`{"m` + strconv.Itoa(tc.Mark) + `":1}`)
+		opts.MultiError = tc.Multi
+	} else if tc.Part == "pick" {
 		for _, k := range tc.Keys {
 			responses[k] = map[string]any{"description": k,
 				"content": jsonContent(map[string]any{"type": "object", "required": []any{"e" + k}})}
